@@ -195,6 +195,55 @@ class TU:
             elif k == 'VarDecl':
                 self.globals[n['name']] = n
                 self.global_by_id[n['id']] = n
+        # file-local scalars that are only ever READ in this translation unit keep their initial value for the whole run:
+        # a `static` variable is invisible to other units, and a use that is not the direct operand of an lvalue-to-rvalue
+        # conversion (assignment, ++/--, address-of, array decay ...) is counted as a possible write
+        self.non_read_uses = set()
+        self.atomic_ids = []        # AtomicExpr nodes in source order (the JSON dump does not name the builtin; see atomic_name)
+        self._atomic_names = None
+        self._cmd_flags = list(CLANG_FLAGS) + list(extra_flags)
+        for n in root['inner']:
+            if n['kind'] == 'FunctionDecl':
+                self._scan_uses(n, False)
+
+    def _scan_uses(self, n, under_load):
+        k = n.get('kind')
+        if k == 'DeclRefExpr':
+            if not under_load:
+                self.non_read_uses.add(n.get('referencedDecl', {}).get('id'))
+            return
+        if k == 'AtomicExpr':
+            self.atomic_ids.append(n['id'])
+        load = k == 'ImplicitCastExpr' and n.get('castKind') == 'LValueToRValue'
+        for c in n.get('inner', []) or ():
+            if c and 'kind' in c:
+                self._scan_uses(c, load)
+
+    _ATOMIC_RE = re.compile(r'\b(__atomic_(?:load|store|exchange|compare_exchange)(?:_n)?|__atomic_fetch_(?:add|sub|and|or|xor|nand|min|max)|'
+                            r'__atomic_(?:add|sub|and|or|xor|nand|min|max)_fetch|'
+                            r'__c11_atomic_(?:init|load|store|exchange|compare_exchange_strong|compare_exchange_weak|fetch_(?:add|sub|and|or|xor|nand|min|max)))\s*\(')
+
+    def atomic_name(self, node_id):
+        """which atomic builtin an AtomicExpr node is.  clang's JSON dump omits the name, so the k-th AtomicExpr of the unit (AST order
+        == source order, nested operands after their parent) is matched with the k-th atomic builtin token of the preprocessed text; a
+        count mismatch refuses the unit rather than guessing."""
+        if self._atomic_names is None:
+            p = subprocess.run(['clang', '-E', '-P'] + self._cmd_flags + [self.path], capture_output=True)
+            if p.returncode != 0:
+                raise FrontEndError('clang -E failed on %s' % self.path)
+            names = self._ATOMIC_RE.findall(p.stdout.decode(errors='replace'))
+            if len(names) != len(self.atomic_ids):
+                raise FrontEndError('atomic builtins: %d AtomicExpr nodes but %d builtin tokens in the preprocessed text of %s'
+                                    % (len(self.atomic_ids), len(names), self.relpath))
+            self._atomic_names = dict(zip(self.atomic_ids, names))
+        if node_id not in self._atomic_names:
+            raise FrontEndError('atomic expression outside any function')
+        return self._atomic_names[node_id]
+
+    def read_only_static(self, decl):
+        qt = decl.get('type', {}).get('qualType', '')
+        return (decl.get('storageClass') == 'static' and 'inner' in decl and decl['id'] not in self.non_read_uses
+                and '*' not in qt and '[' not in qt and 'struct' not in qt)
 
     # -- records -------------------------------------------------------------
     def _reg_record(self, n):
